@@ -104,6 +104,13 @@ def gen(ctx):
     for k in range(0, len(script)):
         yield scenario(dialogue, files, script[:k])                     # end of input at every point
     ctx["scopes"].append("get/put on existing, missing, directory, over-long (300, 5000) and path-like local names x accepted/refused; server close / garbage / 421 at every point of a dialogue; end of input at every point")
+    # `exit` ends the program whatever happens to QUIT (answered, refused, garbage, connection closed, 421), and while
+    # disconnected: the lines after it are never executed
+    after = [b"open 127.0.0.1 $PORT", b"user", b"secret", b"del keep.txt", b"noop", b"exit"]
+    for quit_group in (R(b"221 bye"), R(b"500 no"), "X", "r" + b"garbage without code\r\n".hex(), R(b"421 closing"), "r" + b"221-half".hex() + ",X"):
+        yield scenario(LOGIN + [quit_group] + LOGIN + [R(b"250 deleted"), R(b"200 noop"), R(b"221 bye")], files, OPEN + [b"exit"] + after)
+        yield scenario(LOGIN + [quit_group] + LOGIN + [R(b"250 deleted"), R(b"200 noop"), R(b"221 bye")], files, OPEN + [b"EXIT now please"] + after)
+    yield scenario(LOGIN + [R(b"250 deleted"), R(b"200 noop"), R(b"221 bye")], files, [b"exit"] + after)
     # a library error must drop the connection so that a following open starts clean (leftover reply in the old session)
     yield scenario([R(b"220 one"), R(b"331 pw"), R(b"230 in"), R(b"200 type"), "r" + b"abc\r\n".hex() + "," + R(b"555 LEFTOVER"), R(b"220 two"), R(b"331 pw"), R(b"230 in"), R(b"200 type"), R(b"200 noop")],
                    files, OPEN + [b"noop"] + OPEN + [b"noop", b"exit"])
